@@ -51,6 +51,15 @@ fn run_stream_inner(ctx: &mut Ctx, sc: &StreamCase, n_sched: usize, all_cuts: bo
         }
         let s = Sched { in_style: 1, cut: 0, out_style: 0, more_on_last: false };
         results.push(ep_low(z, sc.zlib, &Mode::Flat { cap, pos0: 0 }, &s, &mut rng, 0xA5, "flatBytewise"));
+        // every output pause followed by a second pause a few bytes later, all input offered on every call
+        // (a call that stops for lack of room while its look-ahead already holds the next bytes)
+        let produced = results[1].out.len().min(260);
+        for s1 in 0..produced {
+            for d in [1usize, 2, 3, 5, 8, 12] {
+                let s = Sched { in_style: 0, cut: s1 | (d << 32), out_style: 4, more_on_last: false };
+                results.push(ep_low(z, sc.zlib, &Mode::Flat { cap, pos0: 0 }, &s, &mut rng, 0xA5, &format!("flatPause{}+{}", s1, d)));
+            }
+        }
     }
     // flat results first (same Spec arguments), then ring, so the driver's per-stream cache is effective
     for r in &results { emit(ctx, id, sc, r, &[], 32768, &data_hex, &replay); }
@@ -236,7 +245,7 @@ pub fn run_c04(ctx: &mut Ctx) {
     }
     // one targeted constructor per failure class, raw and behind a valid zlib header
     for rep in 0..(4 * ctx.scale) {
-        for which in 0..15 {
+        for which in 0..17 {
             let (body, how) = sgen::targeted_invalid(&mut ctx.rng, which);
             let sc = StreamCase { z: body.clone(), zlib: false, tag: format!("targeted_{}", how), expect_len: 1000, prefix_of_valid: false, trail: 0 };
             run_stream(ctx, &sc, 2, rep == 0);
@@ -319,6 +328,14 @@ pub fn run_c07(ctx: &mut Ctx) {
         let sc = if i % 3 == 2 { let (z, how) = sgen::mutate(&mut ctx.rng, &base.z); StreamCase { z, zlib: base.zlib, tag: format!("mut_{}", how), expect_len: base.expect_len + 70000, prefix_of_valid: false, trail: 0 } } else { base };
         let small = sc.z.len() <= 300;
         run_stream(ctx, &sc, 10, small);
+    }
+    // a Huffman block directly followed by a stored block (the stored header and first bytes come out of
+    // the look-ahead bit buffer): every input cut and every pair of nearby output pauses
+    for i in 0..(6 * ctx.scale) {
+        let zlib = i % 2 == 1;
+        let (z, plain, _) = sgen::huff_then_stored(&mut ctx.rng, zlib);
+        let sc = StreamCase { z, zlib, tag: "huff_then_stored".into(), expect_len: plain.len(), prefix_of_valid: false, trail: 0 };
+        run_stream(ctx, &sc, 3, true);
     }
     // matches at the seam of the ring buffer, far matches in a ring: whole-window grants (fast copy
     // routes) against small grants (byte-serial resumption routes)
